@@ -79,6 +79,11 @@ func run(prop string, rule rules.Rule, evTier, mode, repo, verif string, seed in
 		}
 	}
 	code = rep.Finish(verif, known)
+	if mode == "list" {
+		for _, o := range rep.Obls {
+			fmt.Printf("OBL\t%s\t%s\t%s\n", o.Status, o.Rule, o.Construct)
+		}
+	}
 	if mode == "keys" {
 		for _, o := range rep.Obls {
 			if o.Status != report.Holds && !o.Known {
